@@ -175,7 +175,11 @@ class QuadricTensor(ProjectiveTensor, ABC):
         if n == 3:
             b = adjugate(self.array)
             i = np.argmax(np.abs(np.diagonal(b, axis1=-2, axis2=-1)), axis=-1)
-            beta = csqrt(-b[(*indices, i, i)])
+            b_ii = b[(*indices, i, i)]
+            # for a double line / double point the adjugate vanishes: do not divide rounding noise by rounding noise
+            # (the entries of the adjugate scale with the square of the entries of the matrix)
+            scale = np.max(np.abs(self.array), axis=(-2, -1)) ** 2
+            beta = csqrt(-np.where(np.abs(b_ii) <= EQ_TOL_ABS * scale, 0, b_ii))
             p = -b[(*indices, slice(None), i)] / np.where(beta != 0, beta, -1)[..., None]
 
         else:
